@@ -12,6 +12,13 @@ use std::hash::{Hash, Hasher};
 fn hex64(n: u64) -> String {
     format!("{:064x}", n)
 }
+/// a full-length digest that starts like one of the one-letter special digests ("d", "e")
+/// followed by a digit or a letter, so that field-wise and text-wise comparison can differ
+fn prefixed_digest(r: &mut Rng) -> String {
+    let head = ["d4", "da", "d0", "e1", "ef", "e0", "d_", "f0"][r.below(8)];
+    let head = if head == "d_" { "d9" } else { head };
+    format!("{}{:062x}", head, r.next() % 3)
+}
 
 // ------------------------------------------------------------------------------------ C05
 fn lib_view(rt: &RevisionTree) -> (BTreeSet<String>, Option<String>) {
@@ -56,6 +63,7 @@ pub fn c05_case(seed: u64, case: u64) -> CaseResult {
             0 => Revision::new_deleted(&p),
             1 => Revision::new_resolved(&p),
             2 => Revision::new_updated("e", &p),
+            3 => Revision::new_updated(prefixed_digest(&mut r), &p),
             _ => Revision::new_updated(hex64(r.next() % 7), &p),
         };
         revs.push((c, Some(p)));
@@ -362,11 +370,12 @@ pub fn c19_case(seed: u64, case: u64) -> CaseResult {
     pool.push(Revision::new(1u32, format!("{:x}", 0x1F600), None));
     while pool.len() < 45 {
         let p = pool[r.below(pool.len())].clone();
-        pool.push(match r.below(6) {
+        pool.push(match r.below(7) {
             0 => Revision::new_deleted(&p),
             1 => Revision::new_resolved(&p),
             2 => Revision::new_updated("e", &p),
             3 => Revision::new(p.index() + 1, hex64(r.next() % 4), Some(&p)),
+            4 => Revision::new_updated(prefixed_digest(&mut r), &p),
             _ => Revision::new_updated(hex64(r.next() % 4), &p),
         });
     }
